@@ -5,7 +5,9 @@ against the extracted Gallina function on every run by vt/props/c02.py).
 doc      = list of blocks
 block    = ("h", level 1..6, inline)                    heading
          | ("p", [inline line, ...])                     paragraph (lines joined by single newlines)
-         | ("list", [(prefix over *#;:, inline), ...])   consecutive list lines
+         | ("list", [(prefix over *#;:, inline, desc), ...])   consecutive list lines; desc = None, or the inline after the
+                                                         first top-level colon of a line whose prefix ends in ';' (the one-line
+                                                         definition item "; term : description")
          | ("table", [row, ...]); row = [(is_header, cellbody), ...]; cellbody = ("inl", inline) | ("blocks", [block...])
          | ("pre", [inline(words only) line, ...])       lines starting with one space
 inline   = list of: ("w", word) | ("b", variant, inline) | ("i", variant, inline) | ("link", target, inline)
@@ -19,10 +21,15 @@ The denotation of a document is the list of its leaves in source order, each wit
   styles = subset of {bold, italic}
 
 Kept away from ambiguity (the property only speaks about well-formed constructs):
-  * quote styles never touch another apostrophe run: the first and last element of a ''/''' span is a word, ''' nests
-    only inside '' (or <i>) and '' only inside ''' (or <b>), at most one level each (apostrophes toggle, they do not nest);
-  * list items, headings, cells written on one line contain no newline; a ';' line contains no ':' (it would split into
-    term/description); list prefixes change only in ways whose MediaWiki meaning is the prefix tree (see `denote_list`);
+  * quote styles: ''' nests only inside '' (or <i>) and '' only inside ''' (or <b>), at most one level each (apostrophes toggle,
+    they do not nest).  The first and last element of a ''/''' span is a word, except in the "touching" spans made by
+    `touch_span`: there the inner span sits at the right edge, the left edge or both edges of the outer one, which gives runs of
+    five apostrophes (three-w-two-w-five, five-w-two-w-three, five-w-five).  Two spans never follow each other without a word between;
+  * list items, headings, cells written on one line contain no newline; a colon appears in a list line only as THE separator of
+    a one-line definition item (prefix ending in ';', colon at top level of the line, no colon in the term outside link targets,
+    urls and refs); the line after such an item does not extend its prefix (mwlib puts that sub-list into the term, i.e. BEFORE
+    the description: reported separately); list prefixes change only in ways whose MediaWiki meaning is the prefix tree
+    (see `denote_list`);
   * tables: every row starts with an explicit |- line; cell bodies with blocks start on their own line;
   * no links inside links, no refs inside refs, no ext-link label containing ']'."""
 
@@ -57,6 +64,8 @@ class Gen:
                 v = rng.choice(["q", "q", "tag", "em"])
                 inner = self.words(1) + (self.inline(depth + 1, allow_link, allow_ref, allow_b=allow_b, allow_i=False) if rng.random() < 0.5 else []) + self.words(1)
                 out.append(("i", v, inner))
+            elif r < 0.74 and allow_b and allow_i:
+                out.append(self.touch_span())
             elif r < 0.80 and allow_link:
                 t = "T" + self.word()
                 if rng.random() < 0.3:
@@ -73,13 +82,54 @@ class Gen:
             out.extend(self.words(1))
         return out
 
+    def touch_span(self):
+        """bold and italic by apostrophes, the inner span touching an edge of the outer one (runs of five apostrophes)"""
+        rng = self.rng
+        outer, inner = rng.choice([("b", "i"), ("i", "b")])
+        shape = rng.choice(["right", "left", "both", "mid"])
+        isp = (inner, "q", self.words(rng.randint(1, 2)))
+        if shape == "right":
+            body = self.words(rng.randint(1, 2)) + [isp]
+        elif shape == "left":
+            body = [isp] + self.words(rng.randint(1, 2))
+        elif shape == "both":
+            body = [isp]
+        else:
+            body = self.words(1) + [isp] + self.words(1)
+        return (outer, "q", body)
+
+    def term(self):
+        """term of a one-line definition item: plain, bold, italic, bold-italic, nested styles (quotes or tags), or any inline"""
+        rng = self.rng
+        r = rng.random()
+        if r < 0.15:
+            return self.words(rng.randint(1, 2))
+        if r < 0.55:
+            out = [self.touch_span()]
+        elif r < 0.7:
+            k, v = rng.choice([("b", "q"), ("i", "q"), ("b", "tag"), ("i", "em"), ("b", "strong"), ("i", "tag")])
+            out = [(k, v, self.words(rng.randint(1, 2)))]
+        else:
+            return self.inline(1, allow_ref=rng.random() < 0.3)
+        if rng.random() < 0.4:
+            out = self.words(1) + out
+        if rng.random() < 0.4:
+            out = out + self.words(1)
+        return out
+
     def list_block(self, maxdepth=4):
         rng = self.rng
         lines = []
         prefix = rng.choice("*#:;") if rng.random() < 0.5 else rng.choice("*#")
         for _ in range(rng.randint(1, 6)):
-            lines.append((prefix, self.inline(1, allow_ref=rng.random() < 0.3)))
+            defn = prefix[-1] == ";" and rng.random() < 0.6
+            if defn:
+                lines.append((prefix, self.term(), self.inline(1, allow_ref=rng.random() < 0.3)))
+            else:
+                lines.append((prefix, self.inline(1, allow_ref=rng.random() < 0.3), None))
             r = rng.random()
+            if defn and r < 0.3:
+                r = 0.9         # the line after a one-line definition item never extends its prefix
             if r < 0.3 and len(prefix) < maxdepth:
                 prefix = prefix + rng.choice("*#:" if rng.random() < 0.8 else "*#:;")
             elif r < 0.5 and len(prefix) > 1:
@@ -178,7 +228,8 @@ def ser_block(rng, b, first=False):
     if k == "p":
         return "\n".join(ser_inline(rng, ln) for ln in b[1]) + "\n"
     if k == "list":
-        return "".join("%s%s%s\n" % (p, rng.choice(["", " "]), ser_inline(rng, inl)) for p, inl in b[1])
+        return "".join("%s%s%s%s\n" % (p, rng.choice(["", " "]), ser_inline(rng, inl),
+                                       "" if d is None else rng.choice([" : ", " : ", ":", ": ", " :"]) + ser_inline(rng, d)) for p, inl, d in b[1])
     if k == "pre":
         return "".join(" %s\n" % ser_inline(rng, ln) for ln in b[1])
     if k == "table":
@@ -259,6 +310,14 @@ def den_inline(inl, bold, italic):
 KIND = {"*": "ul", "#": "ol", ";": "dt", ":": "dd"}
 
 
+def _dd(line):
+    """splitdl (core.py:389): a line '; term : desc' whose prefix is exactly ';' -> (line without description, [dd node])"""
+    p, inl, d = line
+    if p == ";" and d is not None:
+        return (p, inl, None), [["N", ["dd"], den_inline(d, False, False)]]
+    return line, []
+
+
 def denote_list(lines):
     """Prefix tree of consecutive list lines (core.py:400-542 ParseLines.analyze).  Lines are grouped by their first
     prefix char.  * and #: one list node holds all consecutive lines with that first char; a new item starts at every
@@ -272,7 +331,8 @@ def denote_list(lines):
         kind = KIND[p0]
         items = []
         while i < n and lines[i][0][0] == p0:
-            sub = [lines[i]]
+            first, dd = _dd(lines[i])
+            sub = [first]
             i += 1
             while i < n and lines[i][0][0] == p0 and len(lines[i][0]) > 1:
                 sub.append(lines[i])
@@ -282,6 +342,7 @@ def denote_list(lines):
                 items.append(["N", ["li"], body])
             else:
                 out.append(["N", [kind], body])
+                out.extend(dd)
         if p0 in "*#":
             out.append(["N", [kind], items])
     return out
@@ -290,12 +351,14 @@ def denote_list(lines):
 def den_item(sub):
     """the lines of one item with the first prefix char removed: lines whose prefix is now empty are item text,
     maximal runs of the others are nested lists"""
-    rest = [(p[1:], inl) for p, inl in sub]
+    rest = [(p[1:], inl, d) for p, inl, d in sub]
     out = []
     j = 0
     while j < len(rest):
         if rest[j][0] == "":
             out.extend(den_inline(rest[j][1], False, False))
+            if rest[j][2] is not None:                       # a colon outside a definition term is ordinary text
+                out.extend(den_inline(rest[j][2], False, False))
             j += 1
         else:
             k = j
